@@ -127,6 +127,17 @@ Theorem C03_read_step : forall S w ops r n s' d e bug,
 Proof. exact recv_read_step. Qed.
 Print Assumptions C03_read_step.
 
+(** One Peek in any reachable state: it returns S[readPos, readPos+len) — a prefix of what the
+    next reads return —, all n bytes unless it reports an error, io.EOF only when the data
+    ends at the final size, and it does not move the read position. *)
+Theorem C03_peek_step : forall S w ops r n s' d e bug,
+  0 <= w < MaxBC -> Forall rvalid ops -> rsrun S (rrun_init w) ops = Some r ->
+  0 <= n -> PeekS (rr_st r) n = (s', d, e, bug) ->
+  bug = false /\ rpos s' = rpos (rr_st r) /\ d = slice S (rpos (rr_st r)) (len d) /\ len d <= n /\
+  (e = ENil -> len d = n) /\ (e = EEOF -> fc_final s' = true /\ rpos (rr_st r) + len d = finalOffset s').
+Proof. exact recv_peek_step. Qed.
+Print Assumptions C03_peek_step.
+
 (** Rejections (any state): a frame beyond an established final size, a FIN with a different
     final size, a FIN below the highest offset received => FINAL_SIZE_ERROR; a frame beyond
     the window => FLOW_CONTROL_ERROR; in either case the sorter, the current frame, the read
